@@ -399,3 +399,22 @@ func init() {
 	both := `(?s)\ttranslationTable := codonTable\.generateTranslationTable\(\)\n(.*?)` + strings.Replace(gen, "((?:.*\\n)*?)", "((?-s:(?:.*\\n)*?))", 1)
 	fire("C07", "remembered-translation-map-edited-by-its-caller", cd, both, "\ttranslationTable := codonTable.generateTranslationTable()\n\ttranslationTable[\"NNN\"] = \"X\"\n${1}"+strings.Replace(memo(fullKey), "${1}", "${2}", 1), "STATE/memo-alias")
 }
+
+// round 31: the isoschizomer names rewritten after the split
+func init() {
+	rb := "io/rebase/rebase.go"
+	split := `\t\t\tenzyme\.Isoschizomers = strings\.Split\(line\[3:\], ","\)\n`
+	loop := func(value string) string {
+		return "\t\t\tnames := strings.Split(line[3:], \",\")\n\t\t\tfor i, name := range names {\n\t\t\t\tnames[i] = " + value + "\n\t\t\t}\n\t\t\tenzyme.Isoschizomers = names\n"
+	}
+	addVariant(variant{Prop: "C16", Name: "isoschizomer-names-trimmed-after-the-split", File: rb, Find: split, Replace: loop("strings.TrimSpace(name)"), Expect: "FIELDMAP/<2>->Isoschizomers"})
+	addVariant(variant{Prop: "C16", Name: "isoschizomer-names-stored-again-as-they-are", File: rb, Find: split, Replace: loop("name"), Silent: true})
+}
+
+// round 31: a decoded field overwritten with a rewritten form of itself
+func init() {
+	pj := "io/polyjson/polyjson.go"
+	head := `(?s)\t"io/ioutil"\n(.*?)\tlegacyFeatures := sequence\.Features\n`
+	addVariant(variant{Prop: "C15", Name: "date-upper-cased-while-reading", File: pj, Find: head, Replace: "\t\"io/ioutil\"\n\t\"strings\"\n${1}\tsequence.Meta.Date = strings.ToUpper(sequence.Meta.Date)\n\tlegacyFeatures := sequence.Features\n", Expect: "RELINK/decoded fields are returned as read"})
+	addVariant(variant{Prop: "C15", Name: "date-upper-cased-into-a-local-while-reading", File: pj, Find: head, Replace: "\t\"io/ioutil\"\n\t\"strings\"\n${1}\tstamp := strings.ToUpper(sequence.Meta.Date)\n\t_ = stamp\n\tlegacyFeatures := sequence.Features\n", Silent: true})
+}
